@@ -2,6 +2,8 @@
 """Record the source fingerprints of the modelled files (per property) for the current /repo tree.
 Run after model and code were compared at thorough depth.  A differing fingerprint only escalates depth."""
 import importlib, json, os, sys
+if os.path.realpath(sys.executable) != os.path.realpath('/venv/bin/python') and os.path.exists('/venv/bin/python'):
+    os.execv('/venv/bin/python', ['/venv/bin/python'] + sys.argv)   # ast.dump differs between interpreter versions: pin with the checks' interpreter
 HERE = os.path.dirname(os.path.dirname(os.path.abspath(__file__)))
 sys.path.insert(0, HERE)
 from harness import common
